@@ -57,19 +57,6 @@ theorem keysOf_qubits {Lx Ly Lz : Nat} {s : Coord} (h : Kind Lx Ly Lz s) :
   apply mem_qubits_of_isQubit
   rcases h with ⟨x, y, z, rfl, _⟩ | ⟨a, x, y, z, rfl, _⟩ <;> exact (List.mem_filter.mp hq).2
 
-/-- explicit signs of the four axes -/
-theorem sgn_facts (b u v w : Int) (hb : IsAxis b) :
-    (b = 0 ∧ sgnX b = 1 ∧ sgnY b = 1 ∧
-      (((u + v + w) % 4 = 0 ∧ sgnZ b u v w = 1) ∨ ((u + v + w) % 4 ≠ 0 ∧ sgnZ b u v w = -1))) ∨
-    (b = 1 ∧ sgnX b = -1 ∧ sgnY b = -1 ∧
-      (((u + v + w) % 4 = 0 ∧ sgnZ b u v w = 1) ∨ ((u + v + w) % 4 ≠ 0 ∧ sgnZ b u v w = -1))) ∨
-    (b = 2 ∧ sgnX b = 1 ∧ sgnY b = -1 ∧
-      (((u + v + w) % 4 = 0 ∧ sgnZ b u v w = -1) ∨ ((u + v + w) % 4 ≠ 0 ∧ sgnZ b u v w = 1))) ∨
-    (b = 3 ∧ sgnX b = -1 ∧ sgnY b = 1 ∧
-      (((u + v + w) % 4 = 0 ∧ sgnZ b u v w = -1) ∨ ((u + v + w) % 4 ≠ 0 ∧ sgnZ b u v w = 1))) := by
-  unfold sgnX sgnY sgnZ
-  by_cases hp : (u + v + w) % 4 = 0 <;> rcases hb with rfl | rfl | rfl | rfl <;> simp [hp]
-
 /-- the legs of a triangle operator -/
 theorem mem_triKeys {Lx Ly Lz : Nat} {b u v w p q r : Int} (h : [p, q, r] ∈ triKeys Lx Ly Lz b u v w) :
     (p = u + sgnX b ∧ q = v ∧ r = w) ∨ (p = u ∧ q = v + sgnY b ∧ r = w) ∨
@@ -87,24 +74,6 @@ theorem mem_triKeys_of {Lx Ly Lz : Nat} {b u v w p q r : Int}
   rw [List.mem_filter, isQubit_iff]
   refine ⟨?_, hq⟩
   simpa using h
-
-/-- lexicographic comparison from the comparison of the ranks -/
-theorem lex_of_le {X U Y V M ra rb : Nat} (_hY : Y < M) (hV : V < M) (ha : ra < 4) (hb : rb < 4)
-    (h : (X * M + Y) * 4 + ra ≤ (U * M + V) * 4 + rb) :
-    X < U ∨ (X = U ∧ (Y < V ∨ (Y = V ∧ ra ≤ rb))) := by
-  rcases Nat.lt_trichotomy X U with h1 | h1 | h1
-  · exact Or.inl h1
-  · subst h1
-    right
-    refine ⟨rfl, ?_⟩
-    generalize X * M = P at h
-    omega
-  · exfalso
-    have : (U + 1) * M ≤ X * M := Nat.mul_le_mul_right M h1
-    rw [Nat.succ_mul] at this
-    generalize X * M = Q at *
-    generalize U * M = P at *
-    omega
 
 theorem rk_lt (a : Int) : rk a < 4 := by unfold rk; split <;> [omega; (split <;> [omega; (split <;> omega)])]
 
